@@ -187,8 +187,8 @@ Section Steps.
     pose proof (Cur_write_loc K b true E None m E [] m r (Some v) C0 Hiv) as C1.
     specialize (C1 (fun t Ht => ltac:(injection Ht as <-; exact Hgood))).
     assert (Hh : forall p j x, r = RField p j -> get m p = Some x ->
-               (o_box x <> BNotYet \/ o_vst x = VDropping) /\ (o_vst x <> VDropping \/ None = Some p)).
-    { intros p j x -> Hx. cbn in Hidx. destruct Hidx as (y & Hy & _ & Hb & Hvd). assert (y = x) by congruence. subst. auto. }
+               (o_box x <> BNotYet \/ o_vst x = VDropping) /\ (o_vst x <> VDropping \/ None = Some p) /\ o_vst x <> VUninit).
+    { intros p j x -> Hx. cbn in Hidx. destruct Hidx as (y & Hy & _ & Hb & Hvd & Hnu). assert (y = x) by congruence. subst. auto. }
     specialize (C1 Hh).
     destruct (read_loc r m) as [t|] eqn:Hr; cbn [ol app] in C1; [|cbn [fst snd]; fin C1].
     assert (Hown : own_ok (write_loc r (Some v) m) t).
@@ -258,7 +258,7 @@ Section Steps.
       { rewrite <- Hrl. apply (Cur_write_loc K b true E (Some o) m E [] m (RField o j) None C0).
         - cbn. eauto.
         - discriminate.
-        - intros p j' y [= <- <-] Hy. assert (y = x) by congruence. subst. auto. }
+        - intros p j' y [= <- <-] Hy. assert (y = x) by congruence. subst. split; [auto|]. split; [auto | congruence]. }
       set (x1 := x <| o_fields ::= <[j := None]> |>).
       assert (Hx1 : get m1 o = Some x1) by (apply get_upd_eq, Hx).
       (* what the post-condition needs from a final state *)
@@ -325,7 +325,7 @@ Section Steps.
     - (* no strong field left: the Weak fields, then the cleaner *)
       set (m1 := fold_left (fun m w => weak_drop_opt w m) (o_wfields x) m).
       set (m2 := upd o (fun x => x <| o_wfields ::= fmap (fun _ => None) |>) m1).
-      pose proof (Cur_drop_wfields K b true E (Some o) m E [] m o x C0 Hx (or_intror Hv)) as C1. fold m1 m2 in C1.
+      pose proof (Cur_drop_wfields K b true E (Some o) m E [] m o x C0 Hx (or_intror Hv) (or_intror eq_refl)) as C1. fold m1 m2 in C1.
       destruct (fold_weak_drop_keep (o_wfields x) m o x Hx) as (y1 & Hy1 & S1 & S2 & S3 & S4 & S5 & S6 & S7 & S8). fold m1 in Hy1.
       set (x2 := y1 <| o_wfields ::= fmap (fun _ => None) |>).
       assert (Hx2 : get m2 o = Some x2) by (apply get_upd_eq, Hy1).
@@ -338,7 +338,7 @@ Section Steps.
         assert (C2 : Cur K b true E (Some o) m (t :: E) [] m3).
         { pose proof (Cur_set_cleaner K b true E (Some o) m E [] m2 o x2 None C1 Hx2) as C2.
           assert (Hc2 : o_cleaner x2 = Some t) by (unfold x2; cbn; congruence). rewrite Hc2 in C2.
-          apply C2; [congruence | discriminate | right; unfold x2; cbn; congruence | right; reflexivity]. }
+          apply C2; [congruence | discriminate | right; unfold x2; cbn; congruence | right; reflexivity | unfold x2; cbn; congruence]. }
         set (x3 := x2 <| o_cleaner := None |>).
         assert (Hx3 : get m3 o = Some x3) by (apply get_upd_eq, Hx2).
         assert (Hown : own_ok m3 t).
@@ -715,7 +715,7 @@ Section Steps.
     { intros bb nn mf Df Hvf.
       assert (Df' : Cur K bb nn E None m2 E [] mf).
       { apply (Cur_close_ex K _ _ _ o _ _ _ _ Df). intros y y' Hy Hy'. assert (y = x2) by congruence. subst y.
-        split; [congruence|]. split; [congruence|]. split; [apply Hvf, Hy'|].
+        split; [congruence|]. split; [congruence|]. split; [congruence|]. split; [apply Hvf, Hy'|].
         intros _ [Hp|[Hp _]]; [lia | congruence]. }
       pose proof (Cur_join K _ _ _ _ _ _ _ _ _ _ _ _ _ C2 Df') as J. rewrite andb_true_l in J. exact J. }
     destruct r; try triv_post.
@@ -728,6 +728,7 @@ Section Steps.
         destruct (sv_objx _ _ _ _ _ HI5 _ _ Hx5) as [_ X2 _ _ _ _].
         assert (Hr5 : h_rc (o_hdr x5) = 0) by (apply X2; [congruence | unfold dying; rewrite Hv5; reflexivity | exact Hi5']).
         destruct (okN_alloc K _ _ _ _ _ (sv_obj _ _ _ _ _ HI5 _ _ Hx5)) as (O1 & _); [congruence|]. rewrite Hr5 in O1. lia. }
+      assert (Hnu5 : o_vst x5 <> VUninit) by congruence.
       pose proof (Cur_free K _ _ _ _ _ _ _ m5 o x5 D3 Hx5) as D4.
       specialize (D4 ltac:(congruence) Hz5 ltac:(unfold is_live; rewrite Hv5; reflexivity) ltac:(congruence) (or_intror (or_intror eq_refl))).
       pose proof (Cur_restore_dropping K _ _ _ _ _ _ _ _ _ _ _ D4 HI2) as D5.
